@@ -255,9 +255,22 @@ def rule_peak(ctx):
     C.require(accs, "peak_size: running total (+=/-= in the traversal loop) not recognised")
     acc = max(accs, key=lambda k: len(accs[k]))
 
+    la = ctx.r.local_assignments(f)
+
+    def expand(e, depth=0):
+        """the expression with single-definition locals replaced by their definitions"""
+        out = [e]
+        if depth < 3:
+            for x in ast.walk(e):
+                if isinstance(x, ast.Name) and x.id != acc:
+                    for d in la.get(x.id, []):
+                        if not isinstance(d, ast.Name) or d.id != x.id:
+                            out += expand(d, depth + 1)
+        return out
+
     def amounts_ok(e):
         """every call contributing a size is <tree>.get_size; no other size source"""
-        calls = [x for x in ast.walk(e) if isinstance(x, ast.Call)]
+        calls = [x for sub in expand(e) for x in ast.walk(sub) if isinstance(x, ast.Call)]
         srcs = set()
         for c in calls:
             d = dotted(c.func) or ""
